@@ -395,13 +395,12 @@ func (a *Act) binop(x *ssa.BinOp) Val {
 			eq = a.vc.declare("cmp", SortBool)
 		} else if l.Sort == SortSlice {
 			// only comparison against nil is legal
-			other := r
-			if strings.Contains(l.Term, "nil-slice") {
-				other = l
-				l = r
+			// only comparison against nil is legal for slices
+			nonNil := l
+			if c, isC := x.X.(*ssa.Const); isC && c.Value == nil {
+				nonNil = r
 			}
-			_ = other
-			eq = app("=", sArr(l.Term), "0")
+			eq = app("=", sArr(nonNil.Term), "0")
 		} else if l.Sort == SortFlt {
 			eq = a.vc.declare("fcmp", SortBool)
 		} else {
